@@ -183,9 +183,10 @@ def value_le(use, guard):
     if u[0] == 'cast' and g[0] == 'cast' and u[3] == g[3] and {u[2], g[2]} <= {'usize', 'u64'}:
         return True
     # guard compares the uncast unsigned value, use widens it
-    if u[0] == 'cast' and u[1] == 'IntToInt' and u[3] == g and u[2] in ('usize', 'u64'):
+    UNS = ('u8', 'u16', 'u32', 'u64', 'usize')
+    if u[0] == 'cast' and u[1] == 'IntToInt' and u[3] == g and u[2] in ('usize', 'u64') and len(u) > 4 and u[4] in UNS:
         return True
-    if g[0] == 'cast' and g[1] == 'IntToInt' and g[3] == u and g[2] in ('usize', 'u64'):
+    if g[0] == 'cast' and g[1] == 'IntToInt' and g[3] == u and g[2] in ('usize', 'u64') and len(g) > 4 and g[4] in UNS:
         return True
     return False
 
